@@ -5,6 +5,7 @@ import (
 	"encoding/json"
 	"fmt"
 	"sort"
+	"sync/atomic"
 	"time"
 
 	"github.com/grafana/dskit/kv/memberlist"
@@ -152,10 +153,18 @@ type Codec struct{}
 
 func (Codec) CodecID() string { return "c07val" }
 
+// encodeHook, when set, sees every value about to be encoded. The MultiClient primary-switch
+// driver uses it as a gate: the mirror write into the Consul store encodes exactly the *Val that
+// f returned, after the write to the primary and before the write to the secondary.
+var encodeHook atomic.Pointer[func(*Val)]
+
 func (Codec) Encode(x interface{}) ([]byte, error) {
 	v, ok := x.(*Val)
 	if !ok || v == nil {
 		return nil, fmt.Errorf("c07 codec: cannot encode %T", x)
+	}
+	if h := encodeHook.Load(); h != nil {
+		(*h)(v)
 	}
 	rows := make([][4]int, 0, len(v.Items))
 	for k, it := range v.Items {
